@@ -140,8 +140,8 @@ def c13(run):
         mc_env(run, 3, 1, 2, "mc_env_nv3_h1", timeout=7200, listmax=1)
     s2i_env(run, 3, 16, 4000 if t else 400, "beh_nv3")
     s = i2s_env(run, 6, 60 if t else 8, 300, "hist_nv6")
-    if t:
-        i2s_env(run, 7, 20, 300, "hist_nv7")
+    # a few long histories over more variables: the unique table grows to thousands of nodes
+    i2s_env(run, 7, 20 if t else 2, 700 if t else 500, "hist_nv7_long")
     run.nontrivial = s["events_where_table_grew"]
     run.assumptions += ["pointer identities are observed through Rc::as_ptr with every observed Rc kept alive",
                         "intermediate table contents are not required to match Env.tla's algorithmic model"]
